@@ -32,6 +32,8 @@ class Spec:
     """Printed as a call of self.fn with self.args / self.kwargs (list of pairs)."""
 
     def __init__(self, fn, args, kwargs, alt):
+        # alt: False = pretty_call(**kwargs); True / 'list' = pretty_call_alt with a list of pairs;
+        # 'dict', 'odict', 'zip', 'gen' = the other documented forms of the kwargs argument
         self.fn, self.args, self.kwargs, self.alt = fn, tuple(args), list(kwargs), alt
 
 
@@ -61,7 +63,19 @@ def ensure_registered():
     @register_pretty(Spec)
     def pretty_spec(v, ctx):
         if v.alt:
-            return pretty_call_alt(ctx, v.fn, args=v.args, kwargs=v.kwargs)
+            import collections
+            kw = v.kwargs
+            if v.alt == 'dict':
+                kw = dict(kw)
+            elif v.alt == 'odict':
+                kw = collections.OrderedDict(kw)
+            elif v.alt == 'zip':
+                kw = zip([k for k, _ in v.kwargs], [x for _, x in v.kwargs])
+            elif v.alt == 'gen':
+                kw = ((k, x) for k, x in v.kwargs)
+            elif v.alt == 'tuple':
+                kw = tuple(kw)
+            return pretty_call_alt(ctx, v.fn, args=v.args, kwargs=kw)
         return pretty_call(ctx, v.fn, *v.args, **dict(v.kwargs))
     install_extras(['dataclasses', 'attrs'])
     fixtures.register()
@@ -96,7 +110,7 @@ def check_call(fn, fname, args, kwargs, alt, width, part, dump_cache):
     part.n += 1
     spec = Spec(fn, args, kwargs, alt)
     case = {'callable': fname, 'args': [repr(a)[:40] for a in args], 'kwargs': [(k, repr(v)[:40]) for k, v in kwargs],
-            'api': 'pretty_call_alt' if alt else 'pretty_call', 'width': width}
+            'api': ('pretty_call_alt/%s' % (alt if alt is not True else 'list')) if alt else 'pretty_call', 'width': width}
     r = oracles.run_pformat(spec, width=width)
     if r.exc is not None:
         part.violation('exception', case, r.exc)
@@ -143,6 +157,7 @@ def call_cases():
 
 NAMES = ['a', 'fn', 'ctx', 'args', 'kwargs', 'value', 'b']
 KINDS = ['none', 'default', 'factory']
+ATTRS_EXTRA_KINDS = ['selfdep']       # attrs only: Factory(takes_self=True), the default is derived from the instance
 DEFAULTS = {'default': (5, 'x'), 'factory': [5]}
 
 
@@ -188,9 +203,18 @@ def mk_dataclass(fields, variant, idx):
     return cls
 
 
+def derived_default(self_or_kwargs, fields):
+    first = fields[0][0]
+    v = self_or_kwargs[first] if isinstance(self_or_kwargs, dict) else getattr(self_or_kwargs, first)
+    return ['derived', v]
+
+
 def mk_attrs(fields, variant, idx):
     ns = {}
     for name, kind, rp in fields:
+        if kind == 'selfdep':
+            ns[name] = attr.ib(default=attr.Factory(lambda self, fields=fields: derived_default(self, fields), takes_self=True), repr=rp)
+            continue
         if kind == 'none':
             ns[name] = attr.ib(repr=rp)
         elif kind == 'default':
@@ -212,6 +236,14 @@ def class_cases():
             for variant in ('plain', 'frozen', 'slots'):
                 idx += 1
                 yield lib, mk, fields, variant, idx
+    # attrs classes whose last field's default is computed from the first field of the instance
+    for fields in field_defs(2):
+        if not fields:
+            continue
+        for rp in (True, False):
+            for variant in ('plain', 'slots'):
+                idx += 1
+                yield 'attrs', mk_attrs, fields + [('dep', 'selfdep', rp)], variant, idx
 
 
 def check_class(lib, mk, fields, variant, idx, part, widths):
@@ -221,13 +253,27 @@ def check_class(lib, mk, fields, variant, idx, part, widths):
     except Exception as e:     # noqa
         part.c['class_definitions_rejected_by_%s' % lib] += 1
         return
-    for choice in itertools.product((0, 1), repeat=len(fields)):
+    for choice in itertools.product((0, 1, 2), repeat=len(fields)):
         kwargs = {}
+        skip = False
         for (name, kind, rp), c in zip(fields, choice):
-            kwargs[name] = (fresh_default(kind) if kind != 'none' else 7) if c == 0 else [8]
+            if c == 2 and kind != 'none':
+                skip = True         # a third value only for fields without default (so that derived defaults differ)
+            if kind == 'selfdep':
+                if c == 0:
+                    continue        # leave it to the factory
+                kwargs[name] = [8]
+            else:
+                kwargs[name] = ((fresh_default(kind) if kind != 'none' else 7) if c == 0 else [8]) if c < 2 else 9
+        if skip:
+            continue
         inst = cls(**kwargs)
-        exp = [name for (name, kind, rp) in fields if rp and (kind == 'none' or kwargs[name] != DEFAULTS[kind])]
-        hidden_ok = all(rp or (kind != 'none' and kwargs[name] == DEFAULTS[kind]) for (name, kind, rp) in fields)
+
+        def default_of(name, kind):
+            return derived_default(kwargs, fields) if kind == 'selfdep' else DEFAULTS[kind]
+        value = {name: (kwargs[name] if name in kwargs else default_of(name, kind)) for (name, kind, rp) in fields}
+        exp = [name for (name, kind, rp) in fields if rp and (kind == 'none' or value[name] != default_of(name, kind))]
+        hidden_ok = all(rp or (kind != 'none' and value[name] == default_of(name, kind)) for (name, kind, rp) in fields)
         for w in widths:
             part.n += 1
             case = {'library': lib, 'fields': [list(f) for f in fields], 'variant': variant, 'instance': kwargs, 'width': w}
@@ -300,8 +346,8 @@ def work(item):
         for args, kw in itertools.islice(call_cases(), lo, hi):
             keep.append((args, kw))
             for (cname, fn, fname) in CALLABLES:
-                for alt in (True, False):
-                    for w in widths:
+                for alt in (True, False, 'dict', 'odict', 'zip', 'gen', 'tuple'):
+                    for w in (widths if alt in (True, False) else widths[-1:]):
                         check_call(fn, fname, args, kw, alt, w, part, cache)
         if keep and not part.samples:
             part.sample({'args': repr(keep[-1][0])[:100], 'kwargs': repr(keep[-1][1])[:100]})
@@ -347,7 +393,9 @@ def replay(case):
         for args, kw in call_cases():
             if [repr(a)[:40] for a in args] == case['args'] and [(k, repr(v)[:40]) for k, v in kw] == [tuple(x) for x in case['kwargs']]:
                 fn = [c for c in CALLABLES if c[2] == case['callable']][0]
-                check_call(fn[1], fn[2], args, kw, case['api'] == 'pretty_call_alt', case['width'], part, {})
+                api = case['api']
+                alt = False if api == 'pretty_call' else (True if api.endswith('/list') or '/' not in api else api.split('/')[1])
+                check_call(fn[1], fn[2], args, kw, alt, case['width'], part, {})
                 break
         mine = part.violations
     lines = ['case: %s' % case]
